@@ -681,6 +681,10 @@ class FileSet:
             matches = list(
                 self.match(other, start, end, max_interval=max_interval)
             )
+        # Nothing matches, hence there is nothing to align:
+        if len(matches) == 0:
+            return
+
         primaries, secondaries = zip(*matches)
 
         # We have to consider the following to make the align method work
